@@ -4,12 +4,38 @@ from __future__ import annotations
 import itertools
 
 
-def ga(rows, cls=None):
-    """rows [[chrom,s,e,gene],...] -> GenomicArray"""
+SUB = None  # per-case default for `sub` (set by a property's run_impl around its calls)
+
+
+def ga(rows, cls=None, sub=None):
+    """rows [[chrom,s,e,gene],...] -> GenomicArray.  With `sub` (an int seed) the same table is produced as a
+    SUBSET of a larger one (junk rows interleaved, then removed with a boolean mask), so that its pandas index
+    labels differ from the row positions -- as for any table obtained by filtering (targets only, one
+    chromosome, drop_low_coverage, in_range ...)."""
     from skgenome import GenomicArray
 
     cls = cls or GenomicArray
-    return cls.from_rows([tuple(r) for r in rows], columns=["chromosome", "start", "end", "gene"])
+    cols = ["chromosome", "start", "end", "gene"]
+    if sub is None:
+        sub = SUB
+    if sub is None or not rows:
+        return cls.from_rows([tuple(r) for r in rows], columns=cols)
+    import random
+    import numpy as np
+    rng = random.Random(sub)
+    big, mask = [], []
+    for r in rows:
+        for _ in range(rng.choice([0, 1, 1, 2, 3])):
+            j = rng.choice(rows)
+            big.append((j[0], j[1], j[2], "junk"))
+            mask.append(False)
+        big.append(tuple(r))
+        mask.append(True)
+    if all(mask):
+        big.insert(0, (rows[0][0], rows[0][1], rows[0][2], "junk"))
+        mask.insert(0, False)
+    arr = cls.from_rows(big, columns=cols)
+    return arr[np.array(mask)]
 
 
 def rows_of(garr):
